@@ -649,11 +649,20 @@ class Interp:
     def getattr(self, obj, name, node=None):
         if isinstance(obj, ModuleRef):
             return self.world.module_attr(obj.name, name, self)
+        if type(obj).__name__ == 'module':
+            return getattr(obj, name)
         r = self.world.attr_model(obj, name, self)
         if r is not NotImplemented:
             return r
         if isinstance(obj, (str, SStr, tuple, list, dict, set, SSeq, MList,
                             SMap, frozenset)):
+            return BoundMethod(obj, name)
+        if isinstance(obj, SVal):
+            if name in self.world.opaque_attrs:
+                return self.world.opaque_attrs[name](obj, self)
+            if name in self.world.opaque_sigs:
+                return BoundMethod(obj, name)
+        if type(obj).__name__ in ('SMapCell', 'WriteLog'):
             return BoundMethod(obj, name)
         if isinstance(obj, ExcVal):
             return BoundMethod(obj, name)
